@@ -5,7 +5,8 @@
   `ALMSolver<InnerSolverT>::operator()`; everything the loop computes is `Alpaqa.Gen.*`
   (Gen/C07.lean), regenerated from alm.tpp / alm-helpers.tpp on every run.  The inner solver is an
   arbitrary function of what it is called with (so the theorems quantify over *all* sequences of
-  inner outcomes), the clock an oracle bit per inner solve; `nan`, `inf`, the statistics
+  inner outcomes), the clock an oracle bit per inner solve, and so is ALM's own stop flag
+  (`stopSeen`: what `stop_signal.stop_requested()` reads right after that inner solve); `nan`, `inf`, the statistics
   accumulator and `m` (incl. `m = 0`), `single_penalty_factor`, the optional user Σ are all
   universally quantified.  Carrier: any linearly ordered field without NaN (`NoNaN`): real-number
   semantics of the program text; IEEE rounding is not modelled.
@@ -262,9 +263,11 @@ theorem converged_iff_last_inner (hm : prob.m ≠ 0) :
       · intro hc
         by_contra hn
         have hn' : ¬ AlmConv P s.res.status s.res.eps s.res.errz := fun ⟨a, b, c⟩ => hn ⟨b, a, c⟩
-        cases ho : s.res.outOfTime
-        · rw [(h3.2.2 hn' ho).2] at hc; cases hc
-        · rw [h3.2.1 hn' ho] at hc; cases hc
+        cases hsp : s.res.stopSeen
+        · cases ho : s.res.outOfTime
+          · rw [(h3.2.2.2 hn' hsp ho).2] at hc; cases hc
+          · rw [h3.2.2.1 hn' hsp ho] at hc; cases hc
+        · rw [h3.2.1 hn' hsp] at hc; cases hc
       · rintro ⟨a, b, c⟩; exact h3.1 ⟨b, a, c⟩
 
 /-- **interrupted_returns_immediately.**  After an inner solve that reports `Interrupted` no
@@ -357,6 +360,158 @@ theorem stats_are_sums_nat (accN : Nat) (f : S → Nat) (l : List (InnerCall α 
   | nil => simp
   | cons h t ih => simp only [List.map_cons, List.foldl_cons, List.sum_cons]; rw [ih]; omega
 
+/-- **final_status_of_last_inner.**  On the loop path (`max_iter ≠ 0`, `m ≠ 0`) the result is read off
+    the last inner solve: ε, δ = ‖e‖∞, `x`, `y` are its outputs, and the status is the first that
+    applies of: `Interrupted` (the inner solver reported it), `Converged` (ALM's termination test),
+    `Interrupted` (ALM's own stop flag was visible after the inner solve — repair
+    /verif/fixes/C19-alm-stop-flag.diff), `MaxTime` (clock), `MaxIter` (then all `max_iter` inner
+    solves were made). -/
+theorem final_status_of_last_inner (h0 : P.max_iter ≠ 0) (hm : prob.m ≠ 0) :
+    ∃ last, (RUN).history.getLast? = some last ∧
+      (RUN).stats.eps = last.2.eps ∧ (RUN).stats.delta = normInf last.2.errz ∧
+      (RUN).x = last.2.x ∧ (RUN).y = last.2.y ∧
+      (last.2.status = .Interrupted → (RUN).stats.status = .Interrupted) ∧
+      (last.2.status ≠ .Interrupted →
+        (AlmConv P last.2.status last.2.eps last.2.errz → (RUN).stats.status = .Converged) ∧
+        (¬ AlmConv P last.2.status last.2.eps last.2.errz → last.2.stopSeen = true →
+          (RUN).stats.status = .Interrupted) ∧
+        (¬ AlmConv P last.2.status last.2.eps last.2.errz → last.2.stopSeen = false →
+          last.2.outOfTime = true → (RUN).stats.status = .MaxTime) ∧
+        (¬ AlmConv P last.2.status last.2.eps last.2.errz → last.2.stopSeen = false →
+          last.2.outOfTime = false →
+          (RUN).history.length = P.max_iter ∧ (RUN).stats.status = .MaxIter)) := by
+  rcases run_cases nan inf acc0 accAdd P prob x y Sig0 inner with ⟨h, _⟩ | ⟨_, hm0, _⟩ | ⟨_, _, hr⟩
+  · exact absurd h h0
+  · exact absurd hm0 hm
+  · rw [hr]
+    obtain ⟨init, s, stats, Sg, x', y', hne, hsteps, hs, hout, hst, _, hh, hx', hy', _⟩ :=
+      loop_path_last nan inf acc0 accAdd P prob x y Sig0 inner h0
+    have hlast := (loop_last P prob accAdd Sig0.isSome (Sig0.getD []) inner P.max_iter 0 INIT x y hne)
+    rw [hs] at hout
+    have hd := step_done P prob accAdd _ _ inner hout
+    rw [← hs] at hd
+    refine ⟨(s.call, s.res), by rw [hh, List.getLast?_concat], by rw [hst]; exact hd.1,
+      by rw [hst]; exact hd.2.1, hx', hy', by rw [hst]; exact hd.2.2.2.2.2.2.2.1, fun hn => ?_⟩
+    have h3 := hd.2.2.2.2.2.2.2.2 hn
+    rw [hst]
+    refine ⟨h3.1, h3.2.1, h3.2.2.1, fun hc hsp ho => ?_⟩
+    have h4 := h3.2.2.2 hc hsp ho
+    refine ⟨?_, h4.2⟩
+    -- the returning pass has index `max_iter − 1`, and it is pass number `history.length`
+    have hlen : (LOOP P.max_iter 0 INIT x y).stats.outer_iterations =
+        0 + (LOOP P.max_iter 0 INIT x y).history.length :=
+      loop_outer P prob accAdd _ _ inner _ _ _ _ _ hne
+    rw [hst, hd.2.2.1] at hlen
+    omega
+
+/-- **stop_visible_after_inner_returns_interrupted.**  If ALM's own stop flag is visible after
+    inner solve number `pre.length` (whatever that inner solve itself reported — `Converged`,
+    `MaxIter`, `NoProgress`, …), no further inner solve is started and the run returns there:
+    `outer_iterations` = that many inner solves, the accumulated statistics are the sums so far,
+    `x`, `y`, ε, δ are that inner solve's outputs, the caller's Σ buffer receives the penalties it
+    was called with, and the status is `Interrupted` — unless ALM's own termination test succeeded
+    in this very iteration (the last inner solve converged with ε ≤ tolerance and ‖e‖∞ ≤ dual
+    tolerance): then the natural status `Converged` is kept ("or the natural final status if it
+    finished first"; `converged_iff_last_inner` stays an equivalence).  On the `m = 0` path there
+    is a single inner solve and no loop: the first four clauses hold, the status is the inner one
+    (`m0_single_call`). -/
+theorem stop_visible_after_inner_returns_interrupted
+    (pre : List (InnerCall α × InnerResult α S)) (h : InnerCall α × InnerResult α S)
+    (post : List (InnerCall α × InnerResult α S)) (hh : (RUN).history = pre ++ h :: post)
+    (hs : h.2.stopSeen = true) :
+    post = [] ∧ (RUN).stats.outer_iterations = pre.length + 1 ∧
+    (RUN).stats.inner = ((pre ++ [h]).map (·.2.stats)).foldl accAdd acc0 ∧
+    (RUN).stats.inner_convergence_failures =
+      (pre ++ [h]).countP (fun c => !(c.2.status == .Converged)) ∧
+    (prob.m ≠ 0 →
+      (RUN).x = h.2.x ∧ (RUN).y = h.2.y ∧ (RUN).stats.eps = h.2.eps ∧
+      (RUN).stats.delta = normInf h.2.errz ∧
+      (Sig0.isSome = true → (RUN).sigmaOut = some h.1.sigma) ∧
+      (¬ (h.2.status = .Converged ∧ h.2.eps ≤ P.tolerance ∧ normInf h.2.errz ≤ P.dual_tolerance) →
+        (RUN).stats.status = .Interrupted) ∧
+      (h.2.status = .Converged ∧ h.2.eps ≤ P.tolerance ∧ normInf h.2.errz ≤ P.dual_tolerance →
+        (RUN).stats.status = .Converged)) := by
+  have hpost : post = [] := by
+    rcases run_cases nan inf acc0 accAdd P prob x y Sig0 inner with ⟨h0, hr⟩ | ⟨h0, hm0, hr⟩ | ⟨h0, _, hr⟩ <;>
+      rw [hr] at hh
+    · exact absurd (congrArg List.length hh) (by simp)
+    · have hl := congrArg List.length hh
+      simp only [List.length_cons, List.length_nil, List.length_append] at hl
+      exact List.eq_nil_of_length_eq_zero (by omega)
+    · cases post with
+      | nil => rfl
+      | cons b post' =>
+        exfalso
+        obtain ⟨i, st, st', x', y', _, hc, rfl, _⟩ := history_pair nan inf acc0 accAdd P prob x y Sig0
+          inner (fun _ => True) trivial (fun _ _ _ _ _ _ _ => trivial) _ pre h b post' hh
+        have := step_cont_stop P prob accAdd _ _ inner hc
+        rw [this] at hs; cases hs
+  subst hpost
+  have hmi : P.max_iter ≠ 0 := by
+    intro h0
+    rcases run_cases nan inf acc0 accAdd P prob x y Sig0 inner with ⟨_, hr⟩ | ⟨h, _, _⟩ | ⟨h, _, _⟩
+    · rw [hr] at hh; exact absurd (congrArg List.length hh) (by simp)
+    · exact h h0
+    · exact h h0
+  have hlast : (RUN).history.getLast? = some h := by rw [hh, List.getLast?_concat]
+  have hO := outer_le_max_iter nan inf acc0 accAdd P prob x y Sig0 inner
+  have hS := stats_are_sums nan inf acc0 accAdd P prob x y Sig0 inner
+  refine ⟨rfl, by rw [hO.2.1, hh]; simp, by rw [hS.1, hh], by rw [hS.2, hh], fun hm => ?_⟩
+  obtain ⟨last, hl, he, hdl, hx, hy, hI, hst⟩ :=
+    final_status_of_last_inner nan inf acc0 accAdd P prob x y Sig0 inner hmi hm
+  rw [hlast] at hl
+  injection hl with hl
+  subst hl
+  refine ⟨hx, hy, he, hdl, fun hsome => ?_, fun hn => ?_, fun hc => ?_⟩
+  · obtain ⟨l2, hl2, hsg⟩ := (sigma_handed_back nan inf acc0 accAdd P prob x y Sig0 inner).2.2 hmi hm hsome
+    rw [hlast] at hl2
+    injection hl2 with hl2
+    rw [hsg, hl2]
+  · by_cases hi : h.2.status = .Interrupted
+    · exact hI hi
+    · exact (hst hi).2.1 (fun ⟨a, b, c⟩ => hn ⟨b, a, c⟩) hs
+  · have hi : h.2.status ≠ .Interrupted := by rw [hc.1]; decide
+    exact (hst hi).1 ⟨hc.2.1, hc.1, hc.2.2⟩
+
+/-- **interrupted_iff.**  With general constraints (`m ≠ 0`), ALM reports `Interrupted` exactly when
+    the last inner solve reported `Interrupted`, or ALM's own stop flag was visible after it and
+    ALM's termination test did not succeed in that iteration. -/
+theorem interrupted_iff (hm : prob.m ≠ 0) :
+    (RUN).stats.status = .Interrupted ↔
+      ∃ last, (RUN).history.getLast? = some last ∧
+        (last.2.status = .Interrupted ∨
+          (last.2.stopSeen = true ∧
+            ¬ (last.2.status = .Converged ∧ last.2.eps ≤ P.tolerance ∧
+                normInf last.2.errz ≤ P.dual_tolerance))) := by
+  by_cases h0 : P.max_iter = 0
+  · rcases run_cases nan inf acc0 accAdd P prob x y Sig0 inner with ⟨_, hr⟩ | ⟨h, _, _⟩ | ⟨h, _, _⟩
+    · rw [hr]; simp [almMaxIter0]
+    · exact absurd h0 h
+    · exact absurd h0 h
+  obtain ⟨last, hl, _, _, _, _, hI, hst⟩ :=
+    final_status_of_last_inner nan inf acc0 accAdd P prob x y Sig0 inner h0 hm
+  rw [hl]
+  simp only [Option.some.injEq, exists_eq_left']
+  by_cases hi : last.2.status = .Interrupted
+  · simp only [hi, true_or, iff_true]; exact hI hi
+  · have h3 := hst hi
+    simp only [hi, false_or]
+    by_cases hc : AlmConv P last.2.status last.2.eps last.2.errz
+    · rw [h3.1 hc]
+      constructor
+      · intro h; cases h
+      · rintro ⟨_, hn⟩; exact absurd ⟨hc.2.1, hc.1, hc.2.2⟩ hn
+    · have hn : ¬ (last.2.status = .Converged ∧ last.2.eps ≤ P.tolerance ∧
+          normInf last.2.errz ≤ P.dual_tolerance) := fun ⟨a, b, c⟩ => hc ⟨b, a, c⟩
+      cases hsp : last.2.stopSeen
+      · constructor
+        · intro h
+          cases ho : last.2.outOfTime
+          · rw [(h3.2.2.2 hc hsp ho).2] at h; cases h
+          · rw [h3.2.2.1 hc hsp ho] at h; cases h
+        · rintro ⟨h, _⟩; cases h
+      · exact ⟨fun _ => ⟨rfl, hn⟩, fun _ => h3.2.1 hc hsp⟩
+
 /-- **m0_single_call.**  Without general constraints (`m = 0`, `max_iter ≠ 0`) the inner solver is
     called exactly once, with the unprojected `y`, empty Σ, the *final* tolerance and
     `always_overwrite_results`; its status and ε are passed through, δ = 0. -/
@@ -393,6 +548,15 @@ theorem m0_converged_iff (hm : prob.m = 0) (h0 : P.max_iter ≠ 0) (hd : 0 ≤ P
     · exact fun h => h.1
   · exact absurd hm h
 
+/-- On the `m = 0` path (one inner solve, its status passed through, ALM's own flag not consulted)
+    `Interrupted` is reported exactly when the inner solve reported it. -/
+theorem m0_interrupted_iff (hm : prob.m = 0) (h0 : P.max_iter ≠ 0) :
+    (RUN).stats.status = .Interrupted ↔
+      ∃ last, (RUN).history.getLast? = some last ∧ last.2.status = .Interrupted := by
+  obtain ⟨c, r, hh, _, _, _, _, _, _, hst, _⟩ :=
+    m0_single_call nan inf acc0 accAdd P prob x y Sig0 inner hm h0
+  rw [hh, hst]; simp
+
 /-- Tie of the hand-written loop skeleton to the translated loop header
     `for (unsigned i = 0; i < params.max_iter; ++i)`. -/
 theorem loop_header_tie (i : Nat) :
@@ -411,7 +575,7 @@ def exP : ALMParams ℚ := ⟨1/1024, 1/256, 4, 1, 4, 1, 1/4, 1/4, 16, 256, 1/10
 def exProb : Problem ℚ := ⟨2, [false, true], [false, false], 0, 3, [1, -2]⟩
 /-- an inner solver that never converges, pushes `y` out of bounds and reports slack error 1 -/
 def exInner (c : InnerCall ℚ) : InnerResult ℚ Nat :=
-  ⟨.MaxIter, 1, c.x, c.y.map (· + 100), c.errBuf.map (fun _ => (1 : ℚ)), 7, false⟩
+  ⟨.MaxIter, 1, c.x, c.y.map (· + 100), c.errBuf.map (fun _ => (1 : ℚ)), 7, false, false⟩
 
 example : ValidParams exP := by unfold ValidParams exP; norm_num
 /-- single-factor mode, `penalty_update_factor < 1`, `initial_tolerance < tolerance`: valid now -/
@@ -433,6 +597,78 @@ example : (run (0:ℚ) 0 (0:Nat) (· + ·) exP exProb [0] [50, -50] none exInner
     fminS, RealLike.isNaN, RealLike.isFinite, RealLike.sqrt, vget, ALMStats.default, b2n,
     List.range_succ]
   norm_num
+
+/-! #### ALM's own stop flag (repair /verif/fixes/C19-alm-stop-flag.diff) -/
+
+deriving instance DecidableEq for Alpaqa.Gen.InnerSolveOptions
+deriving instance DecidableEq for Alpaqa.C07.InnerCall
+deriving instance DecidableEq for Alpaqa.C07.InnerResult
+
+/-- as `exInner`, but ALM's stop flag is visible after the second inner solve (`outer_iter = 1`) —
+    which itself reports `MaxIter`, not `Interrupted` -/
+def exInnerStop (c : InnerCall ℚ) : InnerResult ℚ Nat :=
+  ⟨.MaxIter, 1, c.x, c.y.map (· + 100), c.errBuf.map (fun _ => (1 : ℚ)), 7, false,
+    decide (1 ≤ c.opts.outer_iter)⟩
+/-- `exP` with four outer iterations -/
+def exP4 : ALMParams ℚ := { exP with max_iter := 4 }
+/-- four iterations allowed, caller's Σ = [1, 2] -/
+def exRunStop : Result ℚ Nat Nat :=
+  run (0:ℚ) 0 (0:Nat) (· + ·) exP4 exProb [0] [50, -50] (some [1, 2]) exInnerStop
+
+def exC0 : InnerCall ℚ := ⟨[0], [16, 0], [1, 2], [0, 0], ⟨true, 1, 0, false⟩⟩
+def exR0 : InnerResult ℚ Nat := ⟨.MaxIter, 1, [0], [116, 100], [1, 1], 7, false, false⟩
+def exC1 : InnerCall ℚ := ⟨[0], [16, 16], [4, 8], [0, 0], ⟨true, 1/4, 1, false⟩⟩
+def exR1 : InnerResult ℚ Nat := ⟨.MaxIter, 1, [0], [116, 116], [1, 1], 7, false, true⟩
+
+/-- the run makes two of the four admissible inner solves (by evaluation in the kernel) -/
+theorem exRunStop_history : exRunStop.history = [] ++ (exC0, exR0) :: (exC1, exR1) :: [] := by
+  decide +kernel
+
+/-- **`stop_visible_after_inner_returns_interrupted`, every hypothesis discharged**, on that run
+    (`pre = [first solve]`, `h` = the second solve, flag visible, inner status `MaxIter`):
+    `Interrupted`, two outer iterations, statistics 7 + 7, Σ of the second solve handed back -/
+example : exRunStop.stats.status = .Interrupted ∧ exRunStop.stats.outer_iterations = 2 ∧
+    exRunStop.stats.inner = 14 ∧ exRunStop.sigmaOut = some [4, 8] ∧ exRunStop.y = [116, 116] := by
+  have h := stop_visible_after_inner_returns_interrupted (0:ℚ) 0 (0:Nat) (· + ·) exP4 exProb [0] [50, -50]
+    (some [1, 2]) exInnerStop [(exC0, exR0)] (exC1, exR1) [] exRunStop_history rfl
+  have h5 := h.2.2.2.2 (by decide)
+  exact ⟨h5.2.2.2.2.2.1 (by simp [exR1]), h.2.1, h.2.2.1, h5.2.2.2.2.1 rfl, h5.2.1⟩
+
+/-- the same facts by plain evaluation -/
+example : exRunStop.stats.status = .Interrupted ∧ exRunStop.stats.outer_iterations = 2 ∧
+    exRunStop.history.length = 2 ∧ exRunStop.logicError = false := by decide +kernel
+
+/-- **`interrupted_iff`**, right to left on that run (second disjunct: no inner solve reported
+    `Interrupted`), and `interrupted_returns_immediately`'s hypothesis is *not* what fired -/
+example : exRunStop.stats.status = .Interrupted :=
+  (interrupted_iff (0:ℚ) 0 (0:Nat) (· + ·) exP4 exProb [0] [50, -50] (some [1, 2]) exInnerStop
+    (by decide)).mpr
+    ⟨(exC1, exR1), by show exRunStop.history.getLast? = _; rw [exRunStop_history]; rfl,
+      Or.inr ⟨rfl, by simp [exR1]⟩⟩
+
+/-- without the flag the same inner solver runs through all four iterations: `MaxIter` -/
+example : (run (0:ℚ) 0 (0:Nat) (· + ·) exP4 exProb [0] [50, -50] (some [1, 2]) exInner).stats.status
+      = .MaxIter ∧
+    (run (0:ℚ) 0 (0:Nat) (· + ·) exP4 exProb [0] [50, -50] (some [1, 2]) exInner).history.length = 4 := by
+  decide +kernel
+
+/-- the exception is real: flag visible after an inner solve with which ALM's own termination test
+    succeeds — the natural status `Converged` is kept -/
+def exInnerStopConv (c : InnerCall ℚ) : InnerResult ℚ Nat :=
+  ⟨.Converged, 0, c.x, c.y, c.errBuf.map (fun _ => (0 : ℚ)), 3, false, true⟩
+example : (run (0:ℚ) 0 (0:Nat) (· + ·) exP4 exProb [0] [1, -1] none exInnerStopConv).stats.status
+      = .Converged ∧
+    (run (0:ℚ) 0 (0:Nat) (· + ·) exP4 exProb [0] [1, -1] none exInnerStopConv).history.length = 1 := by
+  decide +kernel
+
+/-- … and an inner solve that merely reports `Converged` (ε above ALM's tolerance) does not hide
+    the request: `Interrupted` after one inner solve -/
+def exInnerStopConv' (c : InnerCall ℚ) : InnerResult ℚ Nat :=
+  ⟨.Converged, 1/2, c.x, c.y, c.errBuf.map (fun _ => (1 : ℚ)), 3, false, true⟩
+example : (run (0:ℚ) 0 (0:Nat) (· + ·) exP4 exProb [0] [1, -1] none exInnerStopConv').stats.status
+      = .Interrupted ∧
+    (run (0:ℚ) 0 (0:Nat) (· + ·) exP4 exProb [0] [1, -1] none exInnerStopConv').history.length = 1 := by
+  decide +kernel
 
 /-! The repaired update rules at the former excluded points (now theorems, see `penalty_mono`,
     `tolerance_antitone_ge_final`): -/
